@@ -3,7 +3,6 @@ package simrt
 import (
 	"encoding/json"
 	"errors"
-	"math/rand"
 	"strconv"
 	"strings"
 )
@@ -111,7 +110,7 @@ func (l *ChoiceList) UnmarshalJSON(b []byte) error {
 // list, falling back to the default policy (no preemption / value 0) when the
 // list is exhausted or an entry is marked default (V < 0).
 type Choices struct {
-	rng    *rand.Rand
+	rng    prng
 	Replay []Choice
 	pos    int
 	replay bool
@@ -122,9 +121,32 @@ type Choices struct {
 	KeepBias int
 }
 
+// prng is a splitmix64 generator. The stream is drawn from by the scheduler
+// and by tasks (pool, select and fault decisions); math/rand's source is
+// instrumented by the race detector and every such pair of draws was
+// reported as a race inside the harness, so the generator lives here, in
+// uninstrumented functions.
+type prng struct{ x uint64 }
+
+//go:norace
+func (p *prng) next() uint64 {
+	p.x += 0x9e3779b97f4a7c15
+	z := p.x
+	z = (z ^ (z >> 30)) * 0xbf58476d1ce4e5b9
+	z = (z ^ (z >> 27)) * 0x94d049bb133111eb
+	return z ^ (z >> 31)
+}
+
+// intn returns a value in [0,n), n > 0 (multiply-shift; the bias is below 2^-32 for the bounds used here).
+//
+//go:norace
+func (p *prng) intn(n int) int {
+	return int((p.next() >> 32) * uint64(n) >> 32)
+}
+
 // NewChoices creates a random-mode stream.
 func NewChoices(seed int64) *Choices {
-	return &Choices{rng: rand.New(rand.NewSource(seed))}
+	return &Choices{rng: prng{uint64(seed)*0x9e3779b97f4a7c15 + 0x632be59bd9b4e019}}
 }
 
 // NewReplay creates a replay-mode stream.
@@ -162,7 +184,7 @@ func (c *Choices) Pick(kind uint8, n int) int {
 			}
 		}
 	} else {
-		v = c.rng.Intn(n)
+		v = c.rng.intn(n)
 	}
 	c.record(Choice{kind, int32(n), int32(v)})
 	return v
@@ -198,20 +220,16 @@ func (c *Choices) pickTask(ready []*Task, last int) int {
 				}
 			}
 		} else {
-			if c.KeepBias > 0 && ready[def].ID == last && c.rng.Intn(1000) < c.KeepBias {
+			if c.KeepBias > 0 && ready[def].ID == last && c.rng.intn(1000) < c.KeepBias {
 				k = def
 			} else {
-				k = c.rng.Intn(n)
+				k = c.rng.intn(n)
 			}
 		}
 		c.record(Choice{KSched, int32(n), int32(ready[k].ID)})
 	}
 	return k
 }
-
-// Rand exposes the PRNG for plan generation *before* the run starts. It must
-// not be used once the scheduler runs (replay would diverge).
-func (c *Choices) Rand() *rand.Rand { return c.rng }
 
 // SelectStart returns the index of the select case to try first.
 //
